@@ -172,8 +172,7 @@ func injectDriver(a *Args) {
 			chains[[2]bool{bn, sh}] = h
 		}
 	}
-	hx.Reset("inject", "inject")
-	for _, ic := range cases.Cases {
+	runCase := func(ic injectCase, mode string) {
 		id := fmt.Sprintf("j%d", ic.N)
 		mu.Lock()
 		script[id] = ic
@@ -234,7 +233,57 @@ func injectDriver(a *Args) {
 			"ctype": ic.Ctype, "dispo": ic.Dispo, "body": ic.Body, "first": ic.First, "banner": ic.Banner, "shim": ic.Shim}
 		out := map[string]interface{}{"kind": kind, "hdrs_same": hdrsSame, "frame_ok": frameOK, "status": rec.Code, "len": len(got), "orig_len": len(orig)}
 		sig := fmt.Sprintf("inject:%s/%s/%s/%s/%s/%d/%s/%s/%s/%s/b=%v/s=%v", ic.Method, ic.Accept, ic.Mode, ic.Dest, ic.Referer, ic.Status, ic.Ctype, ic.Dispo, ic.Body, ic.First, ic.Banner, ic.Shim)
+		if mode != "" {
+			sig += ":" + mode
+			id += mode
+		}
 		hx.Emit("InjectCase", "case", id, "sig", sig, "c", c, "out", out)
 		res.Case(sig, map[string]interface{}{"classes": ic, "observed": kind})
 	}
+	hx.Reset("inject", "inject")
+	for _, ic := range cases.Cases {
+		runCase(ic, "")
+	}
+	// the same cases again, 16 at a time: the handlers are shared by all of the agent's workers
+	var wg sync.WaitGroup
+	work := make(chan injectCase, len(cases.Cases))
+	for _, ic := range cases.Cases {
+		ic.N += 1000000
+		work <- ic
+	}
+	close(work)
+	for w := 0; w < 16; w++ {
+		wg.Add(1)
+		go func() {
+			defer wg.Done()
+			for ic := range work {
+				runCase(ic, "concurrent")
+			}
+		}()
+	}
+	wg.Wait()
+	// stress of the shim splice path: many concurrent HTML documents in which nothing may be
+	// inserted (no <head> in the first read), each with its own body, plus documents that do get the
+	// script - shared state between responses shows up as a body that is neither
+	n := 1600
+	if hx.Thorough() {
+		n = 12000
+	}
+	work2 := make(chan injectCase, n)
+	bodies := []string{"no-head", "HEAD-upper", "head-late", "big-no-head", "head-early", "head-at-0"}
+	for i := 0; i < n; i++ {
+		work2 <- injectCase{N: 2000000 + i, Method: "GET", Accept: "html", Mode: "none", Dest: "none", Referer: "none", Status: 200,
+			Ctype: "html", Dispo: "none", Body: bodies[i%len(bodies)], First: []string{"all", "tiny", "half"}[i%3], Banner: false, Shim: true}
+	}
+	close(work2)
+	for w := 0; w < 32; w++ {
+		wg.Add(1)
+		go func() {
+			defer wg.Done()
+			for ic := range work2 {
+				runCase(ic, "stress")
+			}
+		}()
+	}
+	wg.Wait()
 }
